@@ -28,12 +28,10 @@ CntLt(a, b) == a[1] < b[1] \/ (a[1] = b[1] /\ a[2] < b[2])
 \* The unique counter N with N == wire (mod WireMod) and last < N <= last + MaxGap (N <= CntMax),
 \* or <<>> when there is none.  Before the first downlink of a session any wire value is taken
 \* at face value.  (MaxGap < WireMod makes N unique.)
-NextFcnt(last, wire) ==
-    IF last = <<>> THEN <<0, wire>>
-    ELSE IF wire > last[2] THEN
-            (IF wire - last[2] <= MaxGap THEN <<last[1], wire>> ELSE <<>>)
-         ELSE IF last[1] < HiMax /\ (WireMod - last[2]) + wire <= MaxGap THEN <<last[1] + 1, wire>>
-         ELSE <<>>
+\* The text of the operator lives in FcntCore.tla so that Apalache (FcntApa.tla) checks the very same definition
+\* with the real constants for all inputs.
+FC == INSTANCE FcntCore
+NextFcnt(last, wire) == FC!Reconstruct(WireMod, MaxGap, HiMax, last, wire)
 
 \* ------------------------------------------------------------------ channel masks (9 bytes, 72 bits)
 Pow2(n) == 2 ^ n
